@@ -16,11 +16,20 @@ import (
 type instance struct {
 	cfg    *config
 	scope  *slip.Scope
-	names  []string // real package names
-	pkgs   []*slip.Package
-	saved  *slip.Package
+	orig   []string        // the names the packages were created with
+	names  []string        // the names they have now (rename-package), the last one for a deleted package
+	nick   []string        // the nickname each has now ("" none): rename-package gives one
+	pkgs   []*slip.Package // nil: deleted
+	ghosts []*slip.Package // package objects that were deleted (must not be referenced any more)
+	ghostOf []int          // the slot each ghost belonged to
+	saved  *slip.Package   // the home package (cl-user)
 	feats  slip.Object
+	errOut slip.Object
 	errors []string
+	// hidden: (package, kind, name) triples for which the history contains a
+	// makunbound / fmakunbound / unintern of an INHERITED name: slip's documented
+	// way of hiding an inherited name locally (differential oracle, S2)
+	hidden map[string]bool
 }
 
 var instCounter int
@@ -39,7 +48,8 @@ type pkgOpts struct {
 
 func newInstance(cfg *config, extraOpts map[string]pkgOpts) (in *instance, err *lisp.Err) {
 	instCounter++
-	in = &instance{cfg: cfg, scope: slip.NewScope(), saved: slip.CurrentPackage}
+	in = &instance{cfg: cfg, scope: slip.NewScope(), saved: slip.CurrentPackage, hidden: map[string]bool{}, errOut: slip.ErrorOutput}
+	slip.ErrorOutput = &slip.OutputStream{Writer: io.Discard} // Package.Define warns about redefinitions there
 	in.scope.Let(slip.Symbol("*error-output*"), &slip.OutputStream{Writer: io.Discard})
 	in.feats, _ = slip.CLPkg.Get("*features*")
 	if l, ok := in.feats.(slip.List); ok {
@@ -48,6 +58,8 @@ func newInstance(cfg *config, extraOpts map[string]pkgOpts) (in *instance, err *
 	for _, letter := range cfg.pk {
 		name := fmt.Sprintf("c13x%d%s", instCounter, letter)
 		in.names = append(in.names, name)
+		in.orig = append(in.orig, name)
+		in.nick = append(in.nick, "")
 	}
 	for i, name := range in.names {
 		xo := extraOpts[cfg.pk[i]]
@@ -76,8 +88,16 @@ func (in *instance) subst(s string) string {
 // close removes the packages again and restores the globals.
 func (in *instance) close() {
 	defer func() { _ = recover() }()
+	slip.ErrorOutput = in.errOut
 	slip.CLPkg.Set("*package*", in.saved)
+	all := append([]*slip.Package(nil), in.ghosts...)
 	for _, p := range in.pkgs {
+		if p != nil {
+			all = append(all, p)
+		}
+	}
+	for _, p := range all {
+		p.Locked = false
 		for _, u := range append([]*slip.Package(nil), p.Uses...) {
 			func() {
 				defer func() { _ = recover() }()
@@ -85,8 +105,10 @@ func (in *instance) close() {
 			}()
 		}
 	}
-	for _, p := range in.pkgs {
-		slip.RemovePackage(p)
+	for _, p := range all {
+		if p.Name != "" {
+			slip.RemovePackage(p)
+		}
 	}
 	if in.feats != nil {
 		slip.CLPkg.Set("*features*", in.feats)
@@ -94,11 +116,57 @@ func (in *instance) close() {
 }
 
 func (in *instance) inPackage(i int) *lisp.Err {
-	_, err := lisp.EvalIn(in.scope, "(in-package '"+in.names[i]+")")
+	if in.pkgs[i] == nil {
+		return &lisp.Err{Class: "deleted", Message: "the package was deleted"}
+	}
+	name := in.names[i]
+	if in.nick[i] != "" {
+		name = in.nick[i] // a renamed package is entered by its nickname
+	}
+	_, err := lisp.EvalIn(in.scope, "(in-package '"+name+")")
 	if err == nil && slip.CurrentPackage != in.pkgs[i] {
 		return &lisp.Err{Class: "harness", Message: "in-package did not switch *package*"}
 	}
 	return err
+}
+
+func (in *instance) goHome() { slip.CLPkg.Set("*package*", in.saved) }
+
+// refresh brings the instance's view of its packages up to date after an
+// operation: a deleted package becomes a ghost, a renamed one is addressed by
+// its new name, a package created under the name of a deleted one takes its slot.
+func (in *instance) refresh() {
+	for i, p := range in.pkgs {
+		if p != nil && p.Name == "" {
+			in.ghosts = append(in.ghosts, p)
+			in.ghostOf = append(in.ghostOf, i)
+			in.pkgs[i] = nil
+			in.names[i] = in.orig[i]
+			in.nick[i] = ""
+			p = nil
+		}
+		if p != nil {
+			in.names[i] = p.Name
+			in.nick[i] = ""
+			if 0 < len(p.Nicknames) {
+				in.nick[i] = p.Nicknames[0]
+			}
+			continue
+		}
+		if np := slip.FindPackage(in.orig[i]); np != nil && in.pkgIndex(np) == -2 {
+			in.pkgs[i] = np
+			in.names[i] = np.Name
+		}
+	}
+}
+
+// otherName is the name rename-package gives package i: the original name
+// with an "r" appended, or the original name again.
+func (in *instance) otherName(i int) string {
+	if in.names[i] == in.orig[i] {
+		return in.orig[i] + "r"
+	}
+	return in.orig[i]
 }
 
 // opSource is the Lisp text of an operation (evaluated after in-package).
@@ -122,16 +190,147 @@ func (in *instance) opSource(o op) string {
 		return "(makunbound '" + o.arg + ")"
 	case "fmakunbound":
 		return "(fmakunbound '" + o.arg + ")"
+	// further Lisp operations, evaluated in the package
+	case "intern":
+		return "(intern \"" + o.name + "\")"
+	case "unintern":
+		return "(unintern '" + o.name + ")"
+	// evaluated in the home package, naming the package
+	case "delpkg":
+		return "(delete-package '" + in.names[o.actor] + ")"
+	case "mkpkg":
+		return "(defpackage '" + in.names[o.actor] + " " + baseUse + "))"
+	case "makepkg":
+		return "(make-package \"" + in.names[o.actor] + "\" :use '(cl-user))"
+	case "mkpkgu":
+		return "(defpackage '" + in.names[o.actor] + " " + baseUse + " " + in.names[o.argPk] + "))"
+	case "mkpkgx":
+		return "(defpackage '" + in.names[o.actor] + " " + baseUse + ") (:export " + o.name + "))"
+	case "rename":
+		// the new name and a nickname (the new name + "n")
+		return "(rename-package '" + in.names[o.actor] + " '" + in.otherName(o.actor) + " '(" + in.otherName(o.actor) + "n))"
+	case "lock":
+		return "(lock-package '" + in.names[o.actor] + ")"
+	case "unlock":
+		return "(unlock-package '" + in.names[o.actor] + ")"
+	case "xexport":
+		return "(export '" + o.name + " '" + in.names[o.actor] + ")"
+	case "xunexport":
+		return "(unexport '" + o.name + " '" + in.names[o.actor] + ")"
+	case "xuse":
+		return "(use-package '" + in.names[o.argPk] + " '" + in.names[o.actor] + ")"
+	case "xunuse":
+		return "(unuse-package '" + in.names[o.argPk] + " '" + in.names[o.actor] + ")"
+	case "xdefun":
+		return fmt.Sprintf("(defun %s::%s (x) %d)", in.names[o.actor], o.name, o.val())
+	case "xsetq":
+		return fmt.Sprintf("(setq %s::%s %d)", in.names[o.actor], o.name, o.val())
 	}
 	return "(error \"bad op\")"
 }
 
-// apply performs (in-package actor) + the operation.
-func (in *instance) apply(o op) *lisp.Err {
-	if err := in.inPackage(o.actor); err != nil {
+// goFn is a function defined through the Go extension interface.
+type goFn struct {
+	slip.Function
+	val int
+}
+
+// Call returns the value that identifies the definition.
+func (f *goFn) Call(s *slip.Scope, args slip.List, depth int) slip.Object { return slip.Fixnum(f.val) }
+
+// applyGo performs an operation of the Go extension interface the way the
+// init function of a plugin does it at run time.
+func (in *instance) applyGo(o op) (err *lisp.Err) {
+	defer func() {
+		if rec := recover(); rec != nil {
+			err = lisp.ErrFromRecovered(rec)
+		}
+	}()
+	p := in.pkgs[o.actor]
+	switch o.kind {
+	case "godef", "godefp":
+		name, val := o.name, o.val()
+		creator := func(args slip.List) slip.Object {
+			f := &goFn{Function: slip.Function{Name: name, Args: args}, val: val}
+			f.Self = f
+			return f
+		}
+		p.Define(creator, &slip.FuncDoc{
+			Name:     name,
+			Args:     []*slip.DocArg{{Name: "x", Type: "object"}},
+			Return:   "fixnum",
+			Kind:     slip.FunctionSymbol,
+			NoExport: o.kind == "godefp",
+		})
+	case "goset":
+		p.Set(o.name, slip.Fixnum(o.val()))
+	case "goimport":
+		if in.pkgs[o.argPk] == nil {
+			return &lisp.Err{Class: "deleted", Message: "the package to import from was deleted"}
+		}
+		p.Import(in.pkgs[o.argPk], o.name)
+	}
+	return nil
+}
+
+// notePotentialHiding records, before an unbinding operation, that the name
+// is at that moment an inherited one in the package (see instance.hidden).
+func (in *instance) notePotentialHiding(o op) {
+	var kinds []byte
+	switch o.kind {
+	case "makunbound":
+		kinds = []byte{'v'}
+	case "fmakunbound":
+		kinds = []byte{'f'}
+	case "unintern":
+		kinds = []byte{'v', 'f'}
+	default:
+		return
+	}
+	p := in.pkgs[o.actor]
+	if p == nil {
+		return
+	}
+	for _, k := range kinds {
+		foreign := false
+		if k == 'v' {
+			if vv := p.GetVarVal(o.name); vv != nil && vv.Pkg != p {
+				foreign = true
+			}
+		} else if fi := p.GetFunc(o.name); fi != nil && fi.Pkg != p {
+			foreign = true
+		}
+		if foreign {
+			in.hidden[fmt.Sprintf("%d%c%s", o.actor, k, o.name)] = true
+		}
+	}
+}
+
+// errInapplicable: the operation cannot be attempted in this state (its
+// package was deleted and it is not one that names the package).
+var errInapplicable = &lisp.Err{Class: "inapplicable"}
+
+// apply performs (in-package actor) + the operation, or the operation from
+// the home package when it names the package it acts on.
+func (in *instance) apply(o op) (err *lisp.Err) {
+	defer in.refresh()
+	defer in.goHome()
+	if o.fromHome() {
+		in.goHome()
+		_, err = lisp.EvalIn(in.scope, in.opSource(o))
 		return err
 	}
-	_, err := lisp.EvalIn(in.scope, in.opSource(o))
+	if in.pkgs[o.actor] == nil {
+		return errInapplicable
+	}
+	if err = in.inPackage(o.actor); err != nil {
+		return err
+	}
+	in.notePotentialHiding(o)
+	if o.viaGo() {
+		return in.applyGo(o)
+	}
+	_, err = lisp.EvalIn(in.scope, in.opSource(o))
 	return err
 }
 
@@ -151,10 +350,16 @@ type entry struct {
 
 type pdump struct {
 	vars, funcs map[string]entry
-	uses, users []int
+	uses, users []int // indexes; ghostRef+i: the deleted package object that had slot i
 	foreignUses int
 	exports     []string
+	imports     map[string]int // name -> index of the package it was imported from (ghostRef+i, -2 foreign)
+	deleted     bool
+	locked      bool
+	renamed     bool
 }
+
+const ghostRef = 100
 
 type dump struct {
 	cfg *config
@@ -170,7 +375,22 @@ func (in *instance) pkgIndex(p *slip.Package) int {
 			return i
 		}
 	}
+	for k, x := range in.ghosts {
+		if x == p {
+			return ghostRef + in.ghostOf[k]
+		}
+	}
 	return -2
+}
+
+// homeIndex: the package a cell names as its home: an index, -1 none, -2 a
+// package that is not one of the instance's, -3 a deleted package object.
+func (in *instance) homeIndex(p *slip.Package) int {
+	k := in.pkgIndex(p)
+	if ghostRef <= k {
+		return -3
+	}
+	return k
 }
 
 func (in *instance) dump() *dump {
@@ -179,7 +399,19 @@ func (in *instance) dump() *dump {
 	fcells := map[*slip.FuncInfo]int{}
 	names := in.cfg.names()
 	for i, p := range in.pkgs {
-		pd := pdump{vars: map[string]entry{}, funcs: map[string]entry{}}
+		pd := pdump{vars: map[string]entry{}, funcs: map[string]entry{}, imports: map[string]int{}}
+		if p == nil {
+			pd.deleted = true
+			d.p[i] = pd
+			continue
+		}
+		pd.locked = p.Locked
+		pd.renamed = in.names[i] != in.orig[i]
+		for _, n := range names {
+			if im := p.Imports[n]; im != nil {
+				pd.imports[n] = in.pkgIndex(im.Pkg)
+			}
+		}
 		for _, n := range names {
 			if vv := p.GetVarVal(n); vv != nil {
 				id, ok := vcells[vv]
@@ -187,7 +419,7 @@ func (in *instance) dump() *dump {
 					id = len(vcells)
 					vcells[vv] = id
 				}
-				e := entry{present: true, cell: id, home: in.pkgIndex(vv.Pkg), exp: vv.Export, val: -9}
+				e := entry{present: true, cell: id, home: in.homeIndex(vv.Pkg), exp: vv.Export, val: -9}
 				switch tv := vv.Val.(type) {
 				case slip.Fixnum:
 					e.val = int(tv)
@@ -212,7 +444,7 @@ func (in *instance) dump() *dump {
 					id = len(fcells)
 					fcells[fi] = id
 				}
-				e := entry{present: true, cell: id, home: in.pkgIndex(fi.Pkg), exp: fi.Export, val: -9}
+				e := entry{present: true, cell: id, home: in.homeIndex(fi.Pkg), exp: fi.Export, val: -9}
 				e.val = callInfo(in.scope, fi)
 				e.extra = string(fi.Kind)
 				pd.funcs[n] = e
@@ -220,7 +452,7 @@ func (in *instance) dump() *dump {
 		}
 		for _, u := range p.Uses {
 			if k := in.pkgIndex(u); 0 <= k {
-				pd.uses = append(pd.uses, k)
+				pd.uses = append(pd.uses, k) // also a reference to a deleted package object
 			} else {
 				pd.foreignUses++
 			}
@@ -232,14 +464,22 @@ func (in *instance) dump() *dump {
 				pd.users = append(pd.users, -2)
 			}
 		}
-		seen := map[string]bool{}
+		// Exports: the names in the order of their first occurrence; a name that
+		// is listed more than once is marked (the list is a multiset in slip: the
+		// multiplicity is capped at "more than once" so that the state space of
+		// an append-only list stays finite)
+		cnt := map[string]int{}
 		for _, x := range p.Exports {
-			if !seen[x] {
-				seen[x] = true
+			if cnt[x] == 0 {
 				pd.exports = append(pd.exports, x)
 			}
+			cnt[x]++
 		}
-		sort.Strings(pd.exports)
+		for i, x := range pd.exports {
+			if 1 < cnt[x] {
+				pd.exports[i] = x + "+"
+			}
+		}
 		d.p[i] = pd
 	}
 	return d
@@ -271,9 +511,25 @@ func (d *dump) key() string {
 	var b strings.Builder
 	b.WriteByte(d.cfg.tag)
 	for i, p := range d.p {
-		// Exports (append-only; read by describe / load-form / snapshot only, by no
-		// operation or lookup of this property) is deliberately not part of the key
-		fmt.Fprintf(&b, "|%s uses=%v+%d users=%v", d.cfg.pk[i], p.uses, p.foreignUses, p.users)
+		// Exports is hidden state (no lookup reads it, describe / load-form /
+		// snapshot do, and an operation may): two states that differ only there
+		// are different states and both are expanded
+		if p.deleted {
+			fmt.Fprintf(&b, "|%s deleted", d.cfg.pk[i])
+			continue
+		}
+		fmt.Fprintf(&b, "|%s uses=%v+%d users=%v exports=%v", d.cfg.pk[i], p.uses, p.foreignUses, p.users, p.exports)
+		if p.locked {
+			b.WriteString(" locked")
+		}
+		if p.renamed {
+			b.WriteString(" renamed")
+		}
+		for _, n := range d.cfg.names() {
+			if q, ok := p.imports[n]; ok {
+				fmt.Fprintf(&b, " import:%s<-%d", n, q)
+			}
+		}
 		for _, n := range d.cfg.names() {
 			if e, ok := p.vars[n]; ok {
 				fmt.Fprintf(&b, " v:%s=#%d@%d/%v/%d%s", n, e.cell, e.home, e.exp, e.val, e.extra)
@@ -317,7 +573,12 @@ func (d *dump) abstract(homeWins bool) (g *graph, aliased, leftover map[string]b
 	owners := map[string][]int{}
 	var ambiguous []string
 	for x, p := range d.p {
-		g.p[x].uses = append([]int(nil), p.uses...)
+		g.p[x].deleted, g.p[x].locked = p.deleted, p.locked
+		for _, u := range p.uses {
+			if u < len(d.p) && !d.p[u].deleted { // a reference to a deleted package object is judged by noGhostRefs
+				g.p[x].uses = append(g.p[x].uses, u)
+			}
+		}
 	}
 	for _, kind := range []byte{'v', 'f'} {
 		tabOf := func(x int) map[string]entry {
@@ -365,6 +626,26 @@ func (d *dump) abstract(homeWins bool) (g *graph, aliased, leftover map[string]b
 					}
 				}
 			}
+			// an entry that is not the package's own, for which the package has
+			// an import record and which the package it was imported from still
+			// holds, is the imported name. When the source has dropped or replaced
+			// the definition since, the importer is left with what it imported:
+			// the definition object is then its own (Common Lisp: an imported
+			// symbol stays present in the importer when its home package uninterns it)
+			const imported = 3
+			orphan := make([]bool, len(d.p))
+			for x := range d.p {
+				q, rec := d.p[x].imports[n]
+				if rec && present[x] && ents[x].home != x && 0 <= q && q < len(d.p) {
+					if present[q] && ents[q].cell == ents[x].cell {
+						state[x] = imported
+						g.p[x].imports[n] = &imp{from: q, kind: kind}
+					} else {
+						state[x] = own
+						orphan[x] = true
+					}
+				}
+			}
 			if homeWins {
 				// second reading of an ambiguous table: the package a cell
 				// names as its home has the definition whatever else explains it
@@ -404,10 +685,13 @@ func (d *dump) abstract(homeWins bool) (g *graph, aliased, leftover map[string]b
 					continue
 				}
 				df := &def{val: e.val, exp: e.exp, cell: e.cell}
-				if kind == 'f' && !e.exp && e.home != x {
+				if kind == 'f' && !e.exp && e.home != x && !orphan[x] {
 					df.hidden = true
 				}
-				if h := e.home; 0 <= h && h != x {
+				if orphan[x] && 0 <= e.home {
+					df.orphanOf = e.home + 1
+				}
+				if h := e.home; 0 <= h && h != x && !orphan[x] {
 					if !present[h] || ents[h].cell != e.cell {
 						df.stale = true
 					} else if reaches(d, x, h) {
@@ -423,6 +707,14 @@ func (d *dump) abstract(homeWins bool) (g *graph, aliased, leftover map[string]b
 				g.tab(x, kind)[n] = df
 				ck := fmt.Sprintf("%c%d", kind, e.cell)
 				owners[ck] = append(owners[ck], x)
+			}
+		}
+	}
+	// import records the tables hold nothing for
+	for x := range d.p {
+		for n, q := range d.p[x].imports {
+			if g.p[x].imports[n] == nil && 0 <= q && q < len(d.p) {
+				g.p[x].imports[n] = &imp{from: q}
 			}
 		}
 	}
@@ -452,6 +744,9 @@ func reaches(d *dump, x, h int) bool {
 			if u == h {
 				return true
 			}
+			if len(d.p) <= u {
+				continue
+			}
 			if !seen[u] {
 				seen[u] = true
 				queue = append(queue, u)
@@ -472,7 +767,11 @@ func (in *instance) probeSource(sl slot) string {
 	case "ext":
 		n = in.names[sl.q] + ":" + n
 	case "int":
-		n = in.names[sl.q] + "::" + n
+		if in.nick[sl.q] != "" {
+			n = in.nick[sl.q] + "::" + n // p::n through the nickname of a renamed package
+		} else {
+			n = in.names[sl.q] + "::" + n
+		}
 	case "uses":
 		return "(package-use-list (find-package '" + in.names[sl.c] + "))"
 	case "users":
@@ -511,6 +810,12 @@ type observation struct {
 
 func (in *instance) classify(obj slip.Object, err *lisp.Err, sl slot) observation {
 	if err != nil {
+		if err.GoFault && in.pkgs[sl.q] == nil && strings.HasSuffix(err.Message, "is not defined.") {
+			// a qualified name whose package does not exist: slip panics with a Go
+			// string instead of a condition (scope.go UnpackName) - how an error
+			// is raised is C09's subject, here it is "does not resolve"
+			return observation{val: "U", class: "go-panic-string"}
+		}
 		if err.GoFault {
 			return observation{val: "F:" + err.Message, class: err.Class}
 		}
@@ -522,7 +827,9 @@ func (in *instance) classify(obj slip.Object, err *lisp.Err, sl slot) observatio
 		if l, ok := obj.(slip.List); ok {
 			for _, e := range l {
 				if p, ok := e.(*slip.Package); ok {
-					if k := in.pkgIndex(p); 0 <= k {
+					if k := in.pkgIndex(p); ghostRef <= k {
+						idx = append(idx, "!"+in.cfg.pk[k-ghostRef]) // a deleted package object
+					} else if 0 <= k {
 						idx = append(idx, in.cfg.pk[k])
 					}
 				}
@@ -566,6 +873,12 @@ func (in *instance) probeAll(slots []slot) []observation {
 				src.WriteByte('\n')
 			}
 		}
+		if in.pkgs[ci] == nil {
+			for _, i := range idx {
+				obs[i] = observation{val: "D"} // deleted: there is no such current package
+			}
+			continue
+		}
 		if err := in.inPackage(ci); err != nil {
 			for _, i := range idx {
 				obs[i] = observation{val: "F:in-package failed: " + err.Message}
@@ -586,6 +899,7 @@ func (in *instance) probeAll(slots []slot) []observation {
 			obs[i] = in.classify(obj, err, slots[i])
 		}
 	}
+	in.goHome()
 	return obs
 }
 
